@@ -69,8 +69,17 @@ BCONST = ["b'ab'", "b'\\x00\\xff'", 'b"q\'q"', "b''", "b'\\\\'", "b'\\n\\t'", "r
 PARAMS = ['$x', '$0', '$1', '$abc', '$`select`', '$`my p`', '$_']
 
 
-def tok_text(name, g, rnd):
-    """a sample text for terminal `name`"""
+SAFE_TOK = {'IDENT': ['x', 'Foo', 'bar', 'a1', 'User'], 'ICONST': ['1', '2'], 'FCONST': ['1.5'], 'NICONST': ['1n'],
+            'NFCONST': ['1.5n'], 'SCONST': ["'1.0'"], 'BCONST': ["b'ab'"], 'PARAMETER': ['$p', '$q']}
+
+
+def tok_text(name, g, rnd, safe=False):
+    """a sample text for terminal `name`; safe: plain spellings only (forced-coverage derivations must not be
+    rejected for a reason that has nothing to do with the production they are after)"""
+    if safe and name in SAFE_TOK:
+        return rnd.choice(SAFE_TOK[name])
+    if safe and name in g['kwtext']:
+        return g['kwtext'][name]
     if name == 'IDENT':
         return rnd.choice(IDENTS)
     if name == 'ICONST':
@@ -111,7 +120,11 @@ UNGENERATABLE = {'PARAMETERANDTYPE', '<$>', '<e>', 'STARTBLOCK', 'STARTEXTENSION
                  'STARTMIGRATION', 'STARTSDLDOCUMENT', 'EOI'}
 
 ENTRY_START = {'block': 'EdgeQLBlock', 'fragment': None, 'sdl': 'SDLDocument',
-               'migration': 'CreateMigrationCommandsBlock', 'extension': 'CreateExtensionPackageCommandsBlock'}
+               'migration': 'CreateMigrationCommandsBlock', 'extension': 'CreateExtensionPackageCommandsBlock',
+               # pseudo entry: SDL declarations inside `module m { ... }` (top-level SDL names must be fully qualified);
+               # rendered as an `sdl` text
+               'sdlmod': 'SDLCommandBlock'}
+REAL_ENTRY = {'sdlmod': 'sdl'}
 
 
 class GrammarSampler:
@@ -136,6 +149,7 @@ class GrammarSampler:
         self._minlen()
         self._contexts()
         self.used = [0] * len(self.prods)
+        self.safe = False
         self.index_names()
 
     def is_term(self, s):
@@ -203,8 +217,9 @@ class GrammarSampler:
             k, pos, rest = None, None, None
             if budget <= 0 or depth > 60:
                 m = min(self.prodlen[c] for c in cands)
-                cands = [c for c in cands if self.prodlen[c] <= m + (1 if depth < 80 else 0)]
-                k = rnd.choice(cands)
+                cands = [c for c in cands if self.prodlen[c] <= m + (1 if depth < 80 and not self.safe else 0)]
+                plain = [c for c in cands if self.prods[c][1] == ['IDENT']]
+                k = rnd.choice(plain) if (self.safe and plain and rnd.random() < 0.9) else rnd.choice(cands)
             else:
                 # prefer rarely used productions, avoid blowing the budget
                 ws = [1.0 / (1 + self.used[c]) + (0.2 if self.prodlen[c] <= budget else 0.0) for c in cands]
@@ -234,21 +249,24 @@ class GrammarSampler:
                 self.id_of[k] = qual2id[q]
                 self.k_of[qual2id[q]] = k
         inline = {k: self.g['productions'][i].get('inline') for k, (_l, _r, i) in enumerate(self.prods)}
-        unobs = set()
+        # observable = leaves a production id in the CST: not inline, or inline with a source nonterminal that has an
+        # observable production (least fixed point; `Semicolons -> Semicolons SEMICOLON` over `Semicolons -> SEMICOLON`
+        # is never observable: the inlined value is a terminal)
+        obs = {k for k in range(len(self.prods)) if inline[k] is None}
         changed = True
         while changed:
             changed = False
             for k, (_lhs, rhs, i) in enumerate(self.prods):
-                if k in unobs or inline[k] is None:
+                if k in obs:
                     continue
                 full = g['productions'][i]['rhs']
                 if inline[k] >= len(full):
                     continue
                 src = full[inline[k]]
-                if self.is_term(src) or all(c in unobs for c in self.by_lhs.get(src, ())):
-                    unobs.add(k)
+                if not self.is_term(src) and any(c in obs for c in self.by_lhs.get(src, ())):
+                    obs.add(k)
                     changed = True
-        self.inline, self.unobservable = inline, unobs
+        self.inline, self.unobservable = inline, set(range(len(self.prods))) - obs
         # names ids that no sampler production maps to (ungeneratable tokens, the start wrapper)
         self.unmapped_ids = [i for i in range(len(g['production_names'])) if i not in self.k_of]
 
@@ -341,10 +359,12 @@ class GrammarSampler:
     def render(self, names, entry, rnd):
         toks = []
         for n in names:
-            t = tok_text(n, self.g, rnd)
+            t = tok_text(n, self.g, rnd, self.safe)
             if t is None:
                 return None
             toks.append(t)
+        if entry == 'sdlmod':
+            toks = ['module', 'default'] + toks
         if entry in ('migration', 'extension'):
             if len(toks) >= 2 and toks[0] == '{' and toks[-1] == '}':
                 toks = toks[1:-1]
@@ -352,7 +372,7 @@ class GrammarSampler:
                 return None
         # string interpolation pieces must touch their parentheses' content only via the lexer's
         # own nesting: a space after `\(` and before `)` is fine.
-        sep = ' ' if rnd.random() < 0.85 else rnd.choice(['\n', '  ', ' # c\n', '\t'])
+        sep = ' ' if (self.safe or rnd.random() < 0.85) else rnd.choice(['\n', '  ', ' # c\n', '\t'])
         return sep.join(toks)
 
 
@@ -899,3 +919,79 @@ def stmt_nest_texts(rnd, nrandom=300):
         mid = rnd.choice(inner).replace('@2', rnd.choice(STMT_FORMS)).replace('@', rnd.choice(STMT_FORMS))
         out.append((e, h.replace('@2', rnd.choice(STMT_FORMS)).replace('@', mid)))
     return out
+
+
+# ----------------------------------------------------------------------------- statement templates
+# DDL / SDL bodies that hold EVERY kind of sub-command of an object (productions whose reduce_* methods make
+# semantic checks -- "computed link without expression", "CREATE CAST requires USING" -- are rarely accepted
+# from blind derivations; forced coverage lists what is still unreached after these)
+
+DDL_TEMPLATES = [
+    ('block', "create cast from std::str to std::int64 { using sql function 'f'; alter annotation title := 'x'; create annotation description := 'y'; allow implicit; set volatility := 'Immutable'; };"),
+    ('block', 'create cast from std::str to std::int64 using sql cast;'),
+    ('block', 'create cast from std::str to std::int64 { using sql cast; allow assignment };'),
+    ('block', 'create cast from std::str to std::int64 { using sql expression; };'),
+    ('block', "create cast from std::str to std::int64 { using sql 'select 1'; };"),
+    ('block', "create type T { create link l: U { create annotation title := 'x'; alter annotation title := 'y'; on source delete allow; on target delete restrict; set default := (select U limit 1); create index on (@p); create rewrite insert using (.l); create constraint exclusive; extending base; set required; create property p: str; } };"),
+    ('block', 'create type T { create link l: U { on source delete delete target; on target delete allow; set readonly := true; } };'),
+    ('block', 'create type T { create link l: U { on source delete delete target if orphan; on target delete deferred restrict; } };'),
+    ('block', "create type T { create link l { using (select U); create annotation title := 'x'; } };"),
+    ('block', 'create type T { create required multi link l { using (select U) } };'),
+    ('block', 'create type T { create link l: U { using (select U); }; create link m: U { reset expression }; };'),
+    ('block', "create type T { create property p: str { create annotation title := 'x'; alter annotation title := 'y'; set default := 'a'; create constraint exclusive; set required; create rewrite update using ('x'); extending q; } };"),
+    ('block', "create type T { create property p { using (.a ++ .b); create annotation title := 'x' } };"),
+    ('block', 'create type T { create required single property p { using (1) } };'),
+    ('block', 'create type T { create property p: str { reset expression; } };'),
+    ('block', 'alter type T { create property p { using (1) } }; alter type T { alter link l { create property p { using (1) } } }; alter abstract link L { create property p { using (1) } };'),
+    ('block', "alter function f(a: int64) { using sql function 'g' }; alter function f() { using sql expression }; alter function f() { using sql 'select 1' }; alter function f() { using (1) };"),
+    ('block', "create function f(a: int64) -> int64 { using sql function 'g'; alter annotation title := 'x' };"),
+    ('block', 'create function f() -> int64 { using (1); };'),
+    ('block', 'create function f() -> int64 { using (1) };'),
+    ('block', "create infix operator o (a: int64, b: int64) -> bool { using sql operator '='; alter annotation title := 'x'; create annotation description := 'z' };"),
+    ('block', "create infix operator o (a: int64, b: int64) -> bool using sql operator '=';"),
+    ('block', 'create abstract infix operator o (a: int64, b: int64) -> bool;'),
+    ('sdl', "module m { type T { link l -> U { constraint exclusive { errmessage := 'x' }; index on (@p) { annotation title := 'i' }; deferred index on (@p); rewrite insert using (.l) { annotation title := 'r' }; overloaded property p -> str { default := 'a' }; on source delete allow; extending base; x -> str { default := 'q' }; } } }"),
+    ('sdl', "module m { type T { link l -> U { constraint exclusive; index on (@p); rewrite insert using (.l); on source delete allow; on target delete restrict; extending base; property p -> str; annotation title := 'x'; default := (select U); } } }"),
+    ('sdl', 'module m { type T { overloaded required link l -> U { }; overloaded required property p -> str { }; overloaded x -> str { }; overloaded required y -> str { }; z := 1; required w := 2; } }'),
+    ('sdl', "module m { type T { index on (.a) { annotation title := 'x'; }; deferred index on (.b) { annotation title := 'y' }; index fts::index(language := 'eng') on (.c) { annotation title := 'z' }; deferred index pg::gin(a := 1) on (.d) { }; deferred index pg::gin(a := 1) on (.d); deferred index named on (.e) { }; index named on (.f) { } } }"),
+    ('sdl', "module m { type T { constraint expression on (.a > 0) { errmessage := 'x' }; delegated constraint exclusive on (.b) except (.c) { annotation title := 't' }; } }"),
+    ('sdl', "module m { abstract inheritable annotation a extending b { annotation title := 'x' }; abstract annotation c; abstract constraint cc(x: int64) on (__subject__) extending dd; abstract index ii(named only x: int64) extending jj { code := 'c' }; abstract index kk(named only x: int64 = 1, ) { annotation title := 'a'; }; }"),
+    ('sdl', "module m { global g -> str { default := 'x'; annotation title := 'y' }; global h := 1; required global k -> str { default := 'a' }; global e -> str { }; global f -> str { default := 'x' } }"),
+    ('sdl', "module m { function f() -> int64 { using (1); annotation title := 'x'; volatility := 'Immutable' }; function g() -> int64 { volatility := 'Immutable'; using (1) }; function h() -> int64 { using sql function 'x' }; function e() -> int64 using (1); }"),
+    ('sdl', "module m { alias A { using (select User); annotation title := 'x' }; alias B { using (1) }; alias C := 2; }"),
+    ('sdl', "module m { scalar type S extending str { constraint max_len_value(3); annotation title := 'x' }; scalar type E extending enum<a, b>; scalar type Z extending str { }; scalar type Y extending str { annotation title := 'x' } }"),
+    ('sdl', "module m { type T { access policy ap allow all using (true) { errmessage := 'no'; annotation title := 'x' }; access policy bp when (.a) deny select, insert using (false) { annotation title := 'x' }; access policy cp allow update read, update write; access policy dp allow all { } } }"),
+    ('sdl', "module m { type T { trigger tr after insert, update for each when (true) do (select 1) { annotation title := 'x' }; trigger ts after delete for all do (1); trigger tu after insert for each do (1) { } } }"),
+    ('sdl', "module m { type T { property p -> str { rewrite insert, update using (.p) { annotation title := 'x' }; }; property q -> str { rewrite update using ('a'); rewrite insert using ('a') { } }; } }"),
+    ('sdl', "module m { abstract link L extending K { property p -> str; index on (@p) { annotation title := 'x' }; constraint exclusive { }; annotation title := 't'; readonly := true; overloaded q -> str { }; rewrite insert using (1) { } }; abstract link M { annotation title := 'a' }; abstract link N { readonly := true }; abstract link O { } }"),
+    ('sdl', "module m { abstract property P extending Q { annotation title := 'x'; readonly := true; }; abstract property R { annotation title := 'x' }; abstract property S { readonly := true }; abstract property U { using (1) }; abstract property V { } }"),
+    ('block', "create extension package foo version '1.0' { set ext_module := 'foo'; create module foo; };"),
+    ('block', "create extension package foo migration from version '1.0' to version '2.0' { create module bar; alter type T { create property p: str } };"),
+    ('block', "drop extension package foo migration from version '1.0' to version '2.0';"),
+    ('block', "alter extension foo to version '2.0';"),
+    ('block', "create extension foo version '1.0'; drop extension foo version '1.0'; create extension bar; drop extension bar;"),
+    ('block', 'create data branch a from b; create schema branch a from b; create template branch a from b; create empty branch a;'),
+    ('block', 'configure current branch set x := 1; configure current database set x := 1; configure instance reset x filter .a = 1; configure session insert Foo { a := 1 }; reset global g;'),
+    ('block', 'select f(1, 2,); select (a := 1, b := 2,); select f(a := 1); select [1, 2,]; select {1, 2,};'),
+    ('block', 'with a := 1, b := 2, select a + b; with module m, a as module n, select a::x;'),
+    ('block', 'select User { multi a := 1, optional single b := 2, required multi c := 3, friends += (select User), enemies -= (select User) };'),
+    ('block', "insert User { name := 'a', friends += (select User) }; update User set { friends -= (select User), name := 'x' };"),
+    ('block', 'commit migration; commit migration rewrite; start migration rewrite; abort migration rewrite; populate migration; describe current migration as json; alter current migration reject proposed; reset schema to initial;'),
+    ('block', "create abstract annotation a { create annotation title := 'x'; create annotation description := 'y' }; create abstract inheritable annotation b;"),
+    ('block', "create global g -> str { set default := 'x'; create annotation title := 'y'; }; create global h := 1; create required global k -> str { set default := 'a' }; create global e { using (1); create annotation title := 'x' };"),
+    ('block', "create index match for std::str using fts::index { create annotation title := 'x'; }; create index match for std::str using fts::index;"),
+    ('block', "create abstract index ii(named only x: int64) { create annotation title := 'x'; set code := 'c' }; create abstract index jj() extending ii;"),
+    ('block', "create type T { create trigger tr after insert for each do (1) { create annotation title := 'x' }; create access policy ap allow all using (true) { create annotation title := 'x'; set errmessage := 'e' }; create access policy bp allow all; };"),
+    ('block', "alter type T { alter trigger tr { using (2); create annotation title := 'x'; }; alter access policy ap { allow select; when (true); reset when; using (false); reset expression; rename to bp; create annotation title := 'x' }; alter link l { create rewrite insert using (1) { create annotation title := 'x' }; alter rewrite insert { using (2) }; drop rewrite insert; } };"),
+    ('block', "alter type T { alter property p { create annotation title := 'x'; alter annotation title := 'y'; drop annotation title; set default := 'a'; reset default; rename to q; set owned; drop owned; set readonly := true; reset readonly; set type str using (<str>.p); reset type; set required using ('x'); set optional; reset optionality; set single using (.p); set multi; reset cardinality using (.p); reset cardinality; using (1); reset expression; create constraint exclusive; alter constraint exclusive { set delegated; set not delegated; }; drop constraint exclusive; extending a, b first; drop extending a; } };"),
+    ('block', "alter type T { alter link l { set required using (select U limit 1); set single using (select U limit 1); reset cardinality using (select U limit 1); reset optionality; set type U using (.l[is U]); on source delete allow; on target delete restrict; reset on target delete; reset on source delete; create index on (@p); alter index on (@p) { create annotation title := 'x' }; drop index on (@p); create property p: str; alter property p { set default := 'x' }; drop property p; extending a last; extending b before c; extending d after e; } };"),
+    ('block', "alter type T { extending A, B first; drop extending C; rename to U; create annotation title := 'x'; alter annotation title := 'y'; drop annotation title; set abstract; reset abstract; create index on (.a); alter index on (.a) { set owned }; drop index on (.a); create constraint exclusive on (.a); alter constraint exclusive on (.a) { set errmessage := 'x' }; drop constraint exclusive on (.a); };"),
+    ('block', "drop extension foo version '1.0';"),
+    ('block', "drop extension package foo version '1.0';"),
+    ('block', "create extension package foo migration from version '1.0' to version '2.0';"),
+    ('block', 'alter type T { alter link l { reset cardinality using (.baz) } };'),
+    ('block', 'alter type T { alter property p { set single using (.baz) } };'),
+    ('block', 'alter type T { alter property p { set required using (.baz) } };'),
+    ('block', 'for x in (select User filter .active) select x.name;'),
+    ('block', "select '10\\u00a0km\\nnext';"),
+]
